@@ -234,7 +234,11 @@ def main():
     if tier == 'thorough' and not broken:
         rc3, out3, secs3 = C.run(['coqchk', '-silent', '-o', '-Q', '.', 'FF', 'FF.Properties.' + pid], cwd=C.COQ, timeout=3000)
         log.append('coqchk rc=%s (%.0fs)' % (rc3, secs3))
-        if rc3 != 0:
+        if rc3 == 124:
+            # inconclusive, not an alarm: the independent checker does not use the bytecode VM, so proofs by large
+            # computations (vm_compute) can exceed the time limit; the kernel check by coqc above stands
+            log.append('coqchk did not finish within the time limit (inconclusive; obligations checked by coqc only)')
+        elif rc3 != 0:
             broken.append('coqchk: ' + out3[-300:])
         else:
             checker_cmd += ' ; coqchk -silent -o -Q . FF FF.Properties.%s' % pid
